@@ -89,7 +89,6 @@ def _unwalrus(body: List[ast.stmt]) -> List[ast.stmt]:
 
 
 def _fold_block(func: ast.AST, body: List[ast.stmt]) -> List[ast.stmt]:
-    body = _unwalrus(body)
     out: List[ast.stmt] = []
     index = 0
     while index < len(body):
@@ -493,6 +492,13 @@ def normalise(tree: ast.Module, records: Optional[Dict[str, List[str]]] = None) 
     for func in ast.walk(tree):
         if not isinstance(func, (ast.FunctionDef, ast.AsyncFunctionDef)):
             continue
+        for node in ast.walk(func):
+            if node is not func and isinstance(node, (ast.FunctionDef, ast.AsyncFunctionDef, ast.ClassDef)):
+                continue
+            for field in ("body", "orelse", "finalbody"):
+                block = getattr(node, field, None)
+                if isinstance(block, list) and block and isinstance(block[0], ast.stmt):
+                    setattr(node, field, _unwalrus(block))  # attached first: the folding below counts uses in the tree
         for node in ast.walk(func):
             if node is not func and isinstance(node, (ast.FunctionDef, ast.AsyncFunctionDef, ast.ClassDef)):
                 continue
